@@ -19,7 +19,7 @@ import sys, json, subprocess, itertools, io, contextlib, collections
 from fractions import Fraction
 import numpy as np
 
-sys.path.insert(0, '/repo')
+sys.path.insert(0, __import__('os').environ.get('DEEPROB_REPO', '/repo'))
 from deeprob.spn.learning import xpc as X
 from deeprob.spn.structure.node import Sum, Product
 from deeprob.spn.structure.leaf import Bernoulli
